@@ -8,12 +8,12 @@ table = subprocess.check_output([sys.executable, os.path.join(HERE, 'tools', 'se
 TEXT = '''## 9. Seeded changes: which checks catch which
 --------------------------------------------------------------------------------
 
-Four rounds of seeding were run with fresh sub-agents (the fourth after the coverage audit of every harness).  Each agent got only the text of one
+Five rounds of seeding were run with fresh sub-agents (the fourth and fifth after the coverage audit of every harness).  Each agent got only the text of one
 property and its own scratch git worktree of /repo (nothing from /verif), and had to produce a
 change that breaks the property, keeps the package importable and leaves the repository's test
 results exactly as they were (same 542 passing / 48 failing tests), plus a demonstration program.
 From the second round on each agent was also told the earlier ideas for its property and had to use
-a different mechanism, location and trigger; in the third and fourth rounds it was asked to attack a
+a different mechanism, location and trigger; from the third round on it was asked to attack a
 clause of the statement or an element of the quantifier that the earlier changes did not touch.  Every
 change was confirmed by `tools/try_seed.sh` (demo passes on /repo, fails on the patched scratch
 copy; test suite re-run on the patched copy; then `VERIF_REPO=<patched copy> ./check <property>
@@ -58,6 +58,16 @@ The misses and what was changed (every one is caught now; no check was loosened 
   journal_mode = OFF` "read-only tuning" hook: rewrites the header of a genome file that is in WAL
   mode): every database used was the shipped one (DELETE journal mode, 4096-byte pages) and the hook bypasses the statement recorder; `history-dbstate` now runs the read-side uses on 29 persistent file states (WAL with and without side files, page sizes, auto_vacuum, free pages, encodings) and compares hashes.  The same work turned up a genuine defect of the unchanged code: a genome file with *pending* WAL frames is checkpointed, i.e. modified, by a plain `gambit query` because the file is opened read-write (known finding C18-wal-pending-frames).  C19 (an existing output file is opened r+ and rewritten in place: a killed
   writer leaves old metadata over partly new data): every crash stream wrote to a fresh path, where mode `w` and the seeded `r+` fallback coincide; kind `over_kill` and the field `pre` of `cli_kill` now start from an output path that already holds another, the same, a truncated or a foreign file and kill the writer at every storage call after it opened the path.
+
+* Round 5: 15 of 20 caught at once.  C02 (dtype of the unsigned view computed once from the FIRST element of a
+  reference list: a list mixing dtypes is reinterpreted): ROUND5_C02.  C03 (ancestor list memoised per ORM object and
+  not invalidated when an ancestor is re-parented: classify, edit the taxonomy, classify again): ROUND5_C03.  C06 (per-thread
+  scratch accumulator not cleared after a read that fails part-way: the next genome absorbs the leftovers):
+  ROUND5_C06.  C09 (report_closest clamped to the database size and written back to the caller's QueryParams: reuse
+  against a larger database gives a short list): ROUND5_C09.  C19 (SIGTERM handler calling sys.exit, so that a
+  terminated writer closes the file cleanly): the harness only knew hard kills; extending it to exception deaths showed
+  that the UNCHANGED code already had the defect for Ctrl-C and every other exception (section 6, repaired by a fix:
+  commit); on the repaired tree the seeded change is harmless and the check rightly exits 0 on it.
 
 **Behaviour-preserving rewrites (the opposite experiment).**  A check that alarms on correct code is as
 useless as one that misses a defect, so after round 3 twenty fresh sub-agents (same isolation: the
